@@ -143,11 +143,11 @@ def run(ck):
             cases.append({"type": "wkt", "seed": int(ck.rng.integers(1 << 30)), "sites": int(ck.rng.integers(10, 25)), "steps": [["genmesh", 4, False]]})
     reqs, pending = [], []
     keep = []
-    for case in cases:
+    def one(case):
         dicts, lists = start_mesh(ck, case)
         if dicts is None:
             ck.count("rejected")
-            continue
+            return
         v, e, c = dicts
         hist = ["parse"]
         stage_ok = True
@@ -183,6 +183,9 @@ def run(ck):
         keep.append((v, e, c))
         ck.case(case, nontrivial=len(hist) > 1,
                 sample=({"case": case, "vertices": len(v), "edges": len(e), "cells": len(c)} if len(ck.samples) < 3 else None))
+
+    for case in cases:
+        ck.guard(case, one, case)
     resps = ck.driver(reqs)
     for (kind, case, a, b), resp in zip(pending, resps):
         if kind == "cons":
